@@ -333,10 +333,13 @@ func (p *parser) primary() SExpr {
 		case "nil":
 			return &SNil{}
 		case "old":
-			p.expectOp("(")
-			x := p.expr(0)
-			p.expectOp(")")
-			return &SOld{x}
+			if p.isOp("(") {
+				p.expectOp("(")
+				x := p.expr(0)
+				p.expectOp(")")
+				return &SOld{x}
+			}
+			return &SIdent{t.s}
 		}
 		if p.isOp("(") {
 			p.next()
